@@ -760,3 +760,277 @@ Proof.
   - apply step_wf. exact W.
   - pose proof (step_objs_length lv s op). lia.
 Qed.
+
+(* ------------------------------------------------------------------ *)
+(* client separation: no list reachable from a formula is held by the client *)
+(* ------------------------------------------------------------------ *)
+Record sep (lv : liveness) (s : astate) : Prop := mksep {
+  sep_held : forall g o l, nth_error (s_objs s) g = Some o -> In l (s_held s) -> ~ In l (oclauses o);
+  sep_owned_prfree : forall g o l, nth_error (s_objs s) g = Some o -> In l (oclauses o) -> pr_free (hp_get (s_heap s) l);
+  sep_all_prfree : lv_pair lv = true -> forall l, pr_free (hp_get (s_heap s) l)
+}.
+
+Lemma sep_init : forall lv, sep lv al_init.
+Proof.
+  intros lv. constructor; simpl; intros.
+  - destruct g; discriminate.
+  - destruct g; discriminate.
+  - unfold hp_get. destruct l; reflexivity.
+Qed.
+
+Definition uop_sepok (lv : liveness) (held : list nat) (u : uop) : Prop :=
+  match u with
+  | UAllocHeld c | UAllocTmp c => lv_pair lv = true -> pr_free c
+  | UAddCells _ _ cs | UNewObj _ _ cs _ => Forall pr_free cs
+  | UHold _ => False
+  | USetHdr _ _ => True
+  | UMut l _ => In l held
+  end.
+
+Lemma prfree_extend : forall h cs,
+  (forall l, pr_free (hp_get h l)) -> Forall pr_free cs -> forall l, pr_free (hp_get (h ++ cs) l).
+Proof.
+  intros h cs Hh Hcs l. destruct (Nat.lt_ge_cases l (List.length h)) as [Hlt|Hge].
+  - rewrite hp_get_app_l by exact Hlt. apply Hh.
+  - rewrite hp_get_app_r by exact Hge.
+    destruct (Nat.lt_ge_cases (l - List.length h) (List.length cs)) as [Hl2|Hg2].
+    + rewrite Forall_forall in Hcs. apply Hcs. apply nth_In. exact Hl2.
+    + rewrite nth_overflow by exact Hg2. reflexivity.
+Qed.
+
+Lemma hp_get_fresh : forall h cs l, In l (seq (List.length h) (List.length cs)) -> In (hp_get (h ++ cs) l) cs.
+Proof.
+  intros h cs l Hl. apply in_seq in Hl. rewrite hp_get_app_r by lia. apply nth_In. lia.
+Qed.
+
+(* the parts of sep that only talk about one object list / the heap, after fresh cells were appended *)
+Lemma sep_extend : forall lv s cs,
+  wf s -> sep lv s -> (lv_pair lv = true -> Forall pr_free cs) ->
+  sep lv (mkst (s_heap s ++ cs) (s_hdrs s) (s_objs s) (s_held s)).
+Proof.
+  intros lv s cs W [Sh So Sa] Hcs. constructor; simpl.
+  - exact Sh.
+  - intros g o l Hg Hl. rewrite hp_get_app_l; [eapply So; eauto|].
+    pose proof (wf_cl s W g o Hg) as Hb. rewrite Forall_forall in Hb. apply Hb. exact Hl.
+  - intros Hp. apply prfree_extend; auto.
+Qed.
+
+Lemma ustep_sep : forall lv s u, wf s -> sep lv s -> uop_sepok lv (s_held s) u -> sep lv (ustep s u).
+Proof.
+  intros lv s u W S Hok. destruct u as [c|c|f nv cs|k nv cs hd|ls|f hd|l m]; simpl in *.
+  - (* UAllocHeld *)
+    assert (S1 : sep lv (mkst (s_heap s ++ [c]) (s_hdrs s) (s_objs s) (s_held s))).
+    { apply sep_extend; [exact W|exact S|]. intros Hp. constructor; [auto|constructor]. }
+    destruct S1 as [Sh So Sa]. constructor; simpl in *; auto.
+    intros g o l Hg Hl. apply in_app_or in Hl. destruct Hl as [Hl|[<-|[]]]; [eapply Sh; eauto|].
+    intro Hin. pose proof (wf_cl s W g o Hg) as Hb. rewrite Forall_forall in Hb. specialize (Hb _ Hin). lia.
+  - (* UAllocTmp *)
+    apply sep_extend; [exact W|exact S|]. intros Hp. constructor; [auto|constructor].
+  - (* UAddCells *)
+    destruct (nth_error (s_objs s) f) as [of|] eqn:Hf; [|exact S].
+    assert (S1 : sep lv (mkst (s_heap s ++ cs) (s_hdrs s) (s_objs s) (s_held s))).
+    { apply sep_extend; auto. }
+    destruct S1 as [Sh So Sa]. constructor; simpl in *; auto.
+    + intros g o l Hg Hl. apply nth_error_hp_set_some in Hg. destruct Hg as [[-> [-> _]]|[Hne Hg]]; simpl.
+      * intro Hin. apply in_app_or in Hin. destruct Hin as [Hin|Hin]; [eapply Sh; eauto|].
+        apply in_seq in Hin. pose proof (wf_held s W) as Hb. rewrite Forall_forall in Hb. specialize (Hb _ Hl). lia.
+      * eapply Sh; eauto.
+    + intros g o l Hg Hl. apply nth_error_hp_set_some in Hg. destruct Hg as [[-> [-> _]]|[Hne Hg]]; simpl in *.
+      * apply in_app_or in Hl. destruct Hl as [Hl|Hl]; [eapply So; eauto|].
+        rewrite Forall_forall in Hok. apply Hok. apply hp_get_fresh. exact Hl.
+      * eapply So; eauto.
+  - (* UNewObj *)
+    assert (S1 : sep lv (mkst (s_heap s ++ cs) (s_hdrs s) (s_objs s) (s_held s))).
+    { apply sep_extend; auto. }
+    destruct S1 as [Sh So Sa]. constructor; simpl in *; auto.
+    + intros g o l Hg Hl. apply nth_error_snoc_some in Hg. destruct Hg as [Hg|[_ ->]]; simpl; [eapply Sh; eauto|].
+      intro Hin. apply in_seq in Hin. pose proof (wf_held s W) as Hb. rewrite Forall_forall in Hb. specialize (Hb _ Hl). lia.
+    + intros g o l Hg Hl. apply nth_error_snoc_some in Hg. destruct Hg as [Hg|[_ ->]]; simpl in *; [eapply So; eauto|].
+      rewrite Forall_forall in Hok. apply Hok. apply hp_get_fresh. exact Hl.
+  - contradiction.
+  - (* USetHdr *)
+    destruct (nth_error (s_objs s) f); [|exact S]. destruct S as [Sh So Sa]. constructor; simpl; auto.
+  - (* UMut *)
+    destruct S as [Sh So Sa]. constructor; simpl; auto.
+    + intros g o c Hg Hc. rewrite hp_get_set_neq; [eapply So; eauto|].
+      intros ->. eapply Sh; eauto.
+    + intros Hp l'. destruct (Nat.eq_dec l l') as [<-|Hne].
+      * destruct (Nat.lt_ge_cases l (List.length (s_heap s))) as [Hlt|Hge].
+        -- unfold hp_get at 1. rewrite (nth_error_nth _ _ _ (nth_error_hp_set_eq _ _ _ _ Hlt)).
+           unfold pr_free. destruct (cell_refs (mutate m (hp_get (s_heap s) l))) as [|p ps] eqn:E; [reflexivity|].
+           assert (Hin : In p (cell_refs (hp_get (s_heap s) l))).
+           { apply (cell_refs_mutate m). rewrite E. left. reflexivity. }
+           rewrite (Sa Hp l) in Hin. contradiction.
+        -- rewrite hp_get_default by (rewrite hp_set_length; exact Hge). reflexivity.
+      * rewrite hp_get_set_neq by exact Hne. apply Sa. exact Hp.
+Qed.
+
+Lemma uop_sepok_mono : forall lv held held' u, incl held held' -> uop_sepok lv held u -> uop_sepok lv held' u.
+Proof. intros lv held held' u Hi H. destruct u; simpl in *; auto. Qed.
+
+Lemma ustep_held_incl : forall s u, incl (s_held s) (s_held (ustep s u)).
+Proof.
+  intros s u. destruct u; simpl; try apply incl_refl; try (apply incl_appl; apply incl_refl).
+  - destruct (nth_error (s_objs s) f); apply incl_refl.
+  - destruct (nth_error (s_objs s) f); apply incl_refl.
+Qed.
+
+Lemma usteps_sep : forall lv us s,
+  wf s -> sep lv s -> Forall (uop_wfok (List.length (s_heap s))) us -> Forall (uop_sepok lv (s_held s)) us ->
+  sep lv (fold_left ustep us s).
+Proof.
+  intros lv. induction us as [|u us IH]; intros s W S Hw Hs; simpl; [exact S|].
+  inversion Hw as [|u' us' Hu Hus]; subst. inversion Hs as [|u'' us'' Hsu Hsus]; subst.
+  apply IH.
+  - apply ustep_wf; assumption.
+  - apply ustep_sep; assumption.
+  - eapply Forall_impl; [|exact Hus]. intros u0 H0. eapply uop_wfok_mono; [|exact H0]. apply ustep_heap_length.
+  - eapply Forall_impl; [|exact Hsus]. intros u0 H0. eapply uop_sepok_mono; [|exact H0]. apply ustep_held_incl.
+Qed.
+
+Lemma resolve_terms_norefs : forall s ts r,
+  existsb spec_has_ref ts = false -> resolve_terms s ts = Some r -> flat_map term_refs r = [].
+Proof.
+  intros s. induction ts as [|t ts IH]; intros r He H; simpl in *.
+  - inversion H. reflexivity.
+  - apply orb_false_iff in He. destruct He as [He1 He2]. destruct t as [c l|h]; simpl in He1; [|discriminate].
+    destruct (resolve_terms s ts) as [r'|]; [|discriminate]. inversion H; subst. simpl. apply IH; auto.
+Qed.
+
+Lemma one_constraint_pr_free : forall lv s check h nv nv' c,
+  sep lv s -> one_constraint (lv_pair lv) s check h nv = IOk nv' c -> pr_free c.
+Proof.
+  intros lv s check h nv nv' c S H. destruct (lv_pair lv) eqn:Hp.
+  - destruct (handle_loc s h) as [l|] eqn:Hl; [|unfold one_constraint in H; rewrite Hl in H; discriminate].
+    unfold pr_free. destruct (cell_refs c) as [|p ps] eqn:E; [reflexivity|].
+    assert (Hin : In p (cell_refs (hp_get (s_heap s) l))).
+    { eapply one_constraint_refs; eauto. rewrite E. left. reflexivity. }
+    rewrite (sep_all_prfree lv s S Hp l) in Hin. contradiction.
+  - eapply one_constraint_dead_pr_free. exact H.
+Qed.
+
+Lemma add_cells_sepok : forall lv held f x,
+  Forall pr_free (snd (fst x)) -> Forall (uop_sepok lv held) (fst (add_cells f x)).
+Proof. intros lv held f [[nv cs] r] H. simpl in *. destruct cs; simpl; constructor; [exact H|constructor]. Qed.
+
+Lemma transform_sepok : forall lv held s t o, Forall (uop_sepok lv held) (fst (transform s t o)).
+Proof.
+  intros lv held s t o. unfold transform. destruct t as [|k|k|fl pm cp].
+  - destruct (flip_polarity_spec (onumvar o) (obj_cnf s o)) as [nv out]. simpl. constructor; [|constructor].
+    simpl. apply Forall_map_all. intros; apply pr_free_lits.
+  - destruct (xor_substitution (onumvar o) k (obj_cnf s o)) as [[nv out]|]; simpl; constructor; [|constructor].
+    simpl. apply Forall_map_all. intros; apply pr_free_lits.
+  - destruct (or_substitution (onumvar o) k (obj_cnf s o)) as [[nv out]|]; simpl; constructor; [|constructor].
+    simpl. apply Forall_map_all. intros; apply pr_free_lits.
+  - destruct (sharg_of s fl); [|simpl; constructor]. destruct (sharg_of s pm); [|simpl; constructor].
+    destruct (sharg_of s cp); [|simpl; constructor].
+    destruct (shuffle (onumvar o) (obj_cnf s o) s0 s1 s2); simpl; constructor; [|constructor].
+    simpl. apply Forall_map_all. intros; apply pr_free_lits.
+Qed.
+
+Lemma compile_sepok : forall lv s op,
+  wf s -> sep lv s -> op_tame lv op = true -> Forall (uop_sepok lv (s_held s)) (fst (compile lv s op)).
+Proof.
+  intros lv s op W S Ht.
+  assert (Hcl : forall k check nv hs, Forall pr_free (snd (fst (collect (one_clause s k check) nv hs)))).
+  { intros. apply collect_all. intros h0 nv0 nv' c Hc. eapply one_clause_pr_free. exact Hc. }
+  assert (Hco : forall check nv hs, Forall pr_free (snd (fst (collect (one_constraint (lv_pair lv) s check) nv hs)))).
+  { intros. apply collect_all. intros h0 nv0 nv' c Hc. eapply one_constraint_pr_free; eauto. }
+  assert (Hcopy : forall f o l, nth_error (s_objs s) f = Some o -> In l (oclauses o) ->
+                   pr_free (hp_get (s_heap s) l)).
+  { intros f o l Hf Hl. eapply sep_owned_prfree; eauto. }
+  destruct op; simpl in *.
+  - repeat constructor.
+  - destruct (resolve_terms s ts) as [r|] eqn:Hr; simpl; constructor; [|constructor].
+    simpl. intros Hp. rewrite Hp in Ht. simpl in Ht. apply negb_true_iff in Ht.
+    unfold pr_free. simpl. eapply resolve_terms_norefs; eauto.
+  - constructor; [simpl; constructor|constructor].
+  - destruct k.
+    + specialize (Hcl KCnf true 0%Z hs). destruct (collect (one_clause s KCnf true) 0 hs) as [[nv cs] r]. simpl in *.
+      destruct r; simpl; constructor; [exact Hcl|constructor].
+    + specialize (Hco true 0%Z hs). destruct (collect (one_constraint (lv_pair lv) s true) 0 hs) as [[nv cs] r]. simpl in *.
+      destruct r; simpl; constructor; [exact Hco|constructor].
+  - destruct (nth_error (s_objs s) f) as [o|]; simpl; [|constructor]. apply add_cells_sepok.
+    exact (Hcl (okind o) check (onumvar o) [h]).
+  - destruct (nth_error (s_objs s) f) as [o|]; simpl; [|constructor]. apply add_cells_sepok. apply Hcl.
+  - destruct (nth_error (s_objs s) f) as [ob|]; simpl; [|constructor].
+    destruct (read_lits s h) as [xs|]; simpl; [|constructor].
+    destruct (linear_cells (okind ob) xs o c) as [cs|] eqn:Hl; simpl; [|constructor].
+    destruct (check && has_zero xs)%bool; simpl; [constructor|].
+    apply Forall_app. split.
+    + destruct o; simpl; repeat constructor.
+    + constructor; [|constructor]. simpl. eapply linear_cells_pr_free. exact Hl.
+  - destruct (nth_error (s_objs s) f) as [ob|]; simpl; [|constructor].
+    destruct (read_lits s h) as [xs|]; simpl; [|constructor].
+    destruct (check && has_zero xs)%bool; simpl; constructor; [|constructor].
+    simpl. apply parity_cells_pr_free.
+  - destruct (nth_error (s_objs s) f) as [o|]; simpl; [|constructor].
+    destruct (okind o); simpl; [constructor|]. apply add_cells_sepok.
+    exact (Hco check (onumvar o) [h]).
+  - destruct (nth_error (s_objs s) f) as [o|]; simpl; [|constructor].
+    destruct (okind o); simpl; [constructor|]. apply add_cells_sepok. apply Hco.
+  - destruct (nth_error (s_objs s) f) as [o|] eqn:Hf; simpl; [|constructor].
+    destruct (nth_error (oclauses o) i) as [l|] eqn:Hi; simpl; constructor; [|constructor].
+    simpl. intros _. eapply Hcopy; eauto. eapply nth_error_In. exact Hi.
+  - destruct (nth_error (s_objs s) f) as [o|] eqn:Hf; simpl; [|constructor].
+    apply negb_true_iff in Ht. rewrite Ht. simpl.
+    apply Forall_forall. intros u Hu. apply in_map_iff in Hu. destruct Hu as [l [<- Hl]]. simpl. intros _. eapply Hcopy; eauto.
+  - destruct (nth_error (s_objs s) f) as [o|] eqn:Hf; simpl; [|constructor].
+    apply negb_true_iff in Ht. rewrite Ht. simpl.
+    apply Forall_forall. intros u Hu. apply in_map_iff in Hu. destruct Hu as [l [<- Hl]].
+    simpl. intros _. eapply Hcopy; eauto. eapply sub_list_incl. exact Hl.
+  - destruct (nth_error (s_objs s) f) as [o|]; simpl; constructor; [exact I|constructor].
+  - destruct (nth_error (s_objs s) f) as [o|]; simpl; [|constructor].
+    destruct (has_key (hdr_at s o) k); simpl; constructor; [exact I|constructor].
+  - destruct (nth_error (s_objs s) f) as [o|]; simpl; [|constructor].
+    destruct (okind o); simpl; [|constructor].
+    destruct (lits_in_range (onumvar o) (obj_cnf s o)); simpl; [|constructor]. apply transform_sepok.
+  - destruct (handle_loc s h) as [l|] eqn:Hl; simpl; constructor; [|constructor].
+    simpl. unfold handle_loc in Hl. eapply nth_error_In. exact Hl.
+Qed.
+
+Lemma step_sep : forall lv s op, wf s -> sep lv s -> op_tame lv op = true -> sep lv (al_step lv s op).
+Proof.
+  intros. rewrite al_step_eq. apply usteps_sep; auto.
+  - apply compile_wfok. assumption.
+  - apply compile_sepok; assumption.
+Qed.
+
+Lemma fold_sep : forall lv h s, wf s -> sep lv s -> forallb (op_tame lv) h = true -> sep lv (fold_left (al_step lv) h s).
+Proof.
+  intros lv. induction h as [|op h IH]; intros s W S Ht; simpl in *; [exact S|].
+  apply andb_true_iff in Ht. destruct Ht as [H1 H2]. apply IH; auto.
+  - apply step_wf. exact W.
+  - apply step_sep; assumption.
+Qed.
+
+Lemma run_sep : forall lv h, forallb (op_tame lv) h = true -> sep lv (al_run lv h).
+Proof. intros. unfold al_run. apply fold_sep; auto. apply wf_init. apply sep_init. Qed.
+
+Lemma tame_repaired : forall h, forallb (op_tame repaired) h = true.
+Proof. induction h as [|op h IH]; simpl; [reflexivity|]. rewrite IH. destruct op; reflexivity. Qed.
+
+(* a held list is reachable from no object *)
+Lemma sep_not_reach : forall lv s g o l,
+  sep lv s -> nth_error (s_objs s) g = Some o -> In l (s_held s) -> ~ In l (obj_reach (s_heap s) o).
+Proof.
+  intros lv s g o l S Hg Hl Hin. unfold obj_reach in Hin. apply in_app_or in Hin. destruct Hin as [Hin|Hin].
+  - eapply sep_held; eauto.
+  - apply in_flat_map in Hin. destruct Hin as [c [Hc Hp]].
+    rewrite (sep_owned_prfree lv s S g o c Hg Hc) in Hp. contradiction.
+Qed.
+
+Lemma mut_objs : forall lv s h m, s_objs (al_step lv s (OMut h m)) = s_objs s /\ s_hdrs (al_step lv s (OMut h m)) = s_hdrs s.
+Proof. intros. rewrite al_step_eq. simpl. destruct (handle_loc s h); simpl; auto. Qed.
+
+Lemma mutation_invisible : forall lv s h m g,
+  wf s -> sep lv s -> aval (al_step lv s (OMut h m)) g = aval s g.
+Proof.
+  intros lv s h m g W S. destruct (Nat.lt_ge_cases g (List.length (s_objs s))) as [Hlt|Hge].
+  - apply step_frame; auto. simpl.
+    destruct (handle_loc s h) as [l|] eqn:Hl; [|reflexivity].
+    destruct (nth_error (s_objs s) g) as [o|] eqn:Hg; [|reflexivity].
+    apply nat_in_false. eapply sep_not_reach; eauto. unfold handle_loc in Hl. eapply nth_error_In. exact Hl.
+  - unfold aval. destruct (mut_objs lv s h m) as [Ho _]. rewrite Ho.
+    assert (Hn : nth_error (s_objs s) g = None) by (apply nth_error_None; exact Hge). rewrite Hn. reflexivity.
+Qed.
